@@ -1,2 +1,8 @@
 import SomeipModel.Model.Bytes
 import SomeipModel.Model.Header
+import SomeipModel.Model.SDOption
+import SomeipModel.Model.SDEntry
+import SomeipModel.Model.Config
+import SomeipModel.Model.Session
+import SomeipModel.Model.Service
+import SomeipModel.Model.Stream
